@@ -143,7 +143,7 @@ def Op.args : Op → List Nat
   | .cinit a => [a] | .caddNext l hd => [l, hd] | .caddPrev l hd => [l, hd] | .cdel a => [a] | .cdelInit a => [a]
   | .cmove l hd => [l, hd] | .cmoveTail l hd => [l, hd] | .cinsertInstead i j => [i, j] | .xctor a => [a]
   | .xunlink a => [a] | .xmoveNext a n => [a, n] | .xmovePrev a n => [a, n] | .xpopFront l => [l] | .xpopBack l => [l]
-  | .xsplice l o => [l, o] | .xclear l => [l]
+  | .xsplice l o => [l, o] | .xclear l => [l] | .cmoveSorted _ _ a hd => [a, hd]
 
 /-- SPEC-LEVEL FRAME: a ring none of whose members is an argument of the operation is still a
 ring of the family afterwards (the same cyclic sequence) -/
@@ -161,6 +161,16 @@ theorem AStep.untouched {A A' : Rings} {op : Op} (st : AStep A op A') :
     simp only [Op.args, List.mem_cons, List.mem_nil_iff, or_false, forall_eq] at ha'
     rcases List.mem_cons.mp h1 with rfl | h1
     · exact absurd List.mem_cons_self ha'
+    · exact ⟨r1, by simp [h1], sr⟩
+  | cmoveSorted s _ =>
+    intro r hr ha
+    obtain ⟨r1, h1, sr⟩ := s.ring_survives r hr
+    have ha' : ∀ a ∈ Op.args (.cmoveSorted _ _ _ _), a ∉ r1 := fun a haa hm => ha a haa ((sr.1 a).mpr hm)
+    simp only [Op.args, List.mem_cons, List.mem_nil_iff, or_false, forall_eq_or_imp, forall_eq] at ha'
+    simp only [List.mem_cons] at h1
+    rcases h1 with rfl | rfl | h1
+    · exact absurd (by simp) ha'.1
+    · exact absurd (by simp) ha'.2
     · exact ⟨r1, by simp [h1], sr⟩
   | _ s =>
     intro r hr ha
